@@ -489,6 +489,9 @@ Proof.
   exists rem. rewrite E. cbn [rbind app]. split; [reflexivity | exact Hk].
 Qed.
 
+Lemma kv_split a it : kv a = item_kv it -> a_key a = item_key it /\ a_value a = item_node it.
+Proof. unfold kv, item_kv. intro H. inversion H. auto. Qed.
+
 Lemma rbind_ret {A} (r : rres A) : rbind r (fun x => ROk x) = r.
 Proof. destruct r; reflexivity. Qed.
 
@@ -502,8 +505,7 @@ Proof.
     destruct it as [v|k v|v|f]; cbn [filter nonflag] in Hm.
     4:{ cbn [den_items]. cbn [rbind app]. rewrite rbind_ret. apply IH; assumption. }
     all: destruct rem as [|a rem]; [discriminate|]; cbn [map] in Hm; apply cons_inj in Hm as [Ha Hm'];
-      assert (Hk : a_key a = item_key _) by (unfold kv, item_kv in Ha; congruence);
-      assert (Hv : a_value a = item_node _) by (unfold kv, item_kv in Ha; congruence);
+      destruct (kv_split _ _ Ha) as [Hk Hv];
       cbn [resolve_params_go den_items]; rewrite Hv, Hk, item_node_spread; cbn [item_node item_key is_some];
       rewrite (IH rem Hm' Hok); cbn [item_ok] in Hit.
     + apply andb_true_iff in Hit as [Hit _]. apply andb_true_iff in Hit as [Hit _]. apply andb_true_iff in Hit as [Hvok _].
